@@ -65,6 +65,12 @@ func RetryPolicy(t *Truth) *Report {
 					rep.Counters["retries"]++
 				}
 			case "hang", "canceled":
+				// the delivery returned because the flush context had ended (deadline or cancellation): "retried
+				// ... until the flush deadline" - nothing of this flush may be attempted after that
+				rep.Counters["deliveries_cut_by_the_end_of_the_flush_context"]++
+				if !lastOne {
+					rep.violate("retry-policy", "attempt-after-the-flush-context-had-ended", map[string]any{"cut": describe(r, a), "next": describe(r, atts[i+1]), "deadline": fmtT(r, a.Deadline)})
+				}
 				if !a.Deadline.IsZero() && a.End.After(a.Deadline.Add(time.Second)) {
 					ep := r.EpochAt(a.Start)
 					if ep != nil && ep.To.After(a.End) {
